@@ -280,7 +280,7 @@ def check_chain(types, gset, npts, res):
         co, mxdev, mxerr = n2p.rbcoords(rbb, verbose=0)
         if not np.allclose(co, pbs - refxyz, atol=1e-9 * sc):
             msgs.append("rbcoords does not recover the grid locations relative to the reference point")
-        if not np.array_equal(uset.values, uset_snapshot):
+        if not np.array_equal(uset.values.astype(float), uset_snapshot.astype(float), equal_nan=True):
             msgs.append("chain %s: the USET table was modified by getcoordinates / rbgeom_uset queries" % (types,))
             uset_snapshot = uset.values.copy()
         # documented: nodes may be in any mixture of (local) coordinate systems -> same locations, no deviation
